@@ -309,25 +309,9 @@ def neBlock : List Stmt → Bool
   | s :: r => neStmt s && neBlock r
 end
 
-mutual
-/-- nesting depth of block statements -/
-def depthS : Stmt → Nat
-  | .foreachplug b => depthB b + 1
-  | .foreachnode b => depthB b + 1
-  | .ifon b => depthB b + 1
-  | .ifoff b => depthB b + 1
-  | _ => 0
-def depthB : List Stmt → Nat
-  | [] => 0
-  | s :: r => max (depthS s) (depthB r)
-end
-
-/-- the mirror's `do … while` of `_process_action` follows at most 64 pushes in a row (`innerLoop … 64`); a block is
-    good if all its nested blocks are non-empty and it is nested at most 64 deep -/
-def goodBlock (l : List Stmt) : Bool := neBlock l && decide (depthB l ≤ 64)
 
 def StackOK (R : Bool) (stack : List ExecCtx) : Prop :=
-  (∀ c ∈ stack, CtxOK R c ∧ goodBlock c.block = true) ∧ (∀ c ∈ stack.tail, ParentOK c) ∧
+  (∀ c ∈ stack, CtxOK R c ∧ neBlock c.block = true) ∧ (∀ c ∈ stack.tail, ParentOK c) ∧
   (∀ c, stack.head? = some c → c.pos < c.block.length)
 
 
@@ -636,21 +620,13 @@ theorem depthS_cond (s : Stmt) (w : Bool) (b : List Stmt) (hk : s.kind = .cond w
 theorem depthS_leaf (s : Stmt) (hk : s.kind = .leaf) : depthS s = 0 := by
   cases s <;> simp [Stmt.kind] at hk <;> simp [depthS]
 
-theorem goodBlock_each (l : List Stmt) (i : Nat) (s : Stmt) (n : Bool) (b : List Stmt) (h : goodBlock l = true)
-    (hs : l[i]? = some s) (hk : s.kind = .each n b) : b ≠ [] ∧ goodBlock b = true := by
-  simp only [goodBlock, Bool.and_eq_true, decide_eq_true_eq] at h ⊢
-  obtain ⟨h1, h2⟩ := neStmt_each s n b hk (neBlock_getElem _ _ _ h.1 hs)
-  have := depthB_getElem l i s hs
-  have := depthS_each s n b hk
-  exact ⟨h1, h2, by omega⟩
+theorem neBlock_each (l : List Stmt) (i : Nat) (s : Stmt) (n : Bool) (b : List Stmt) (h : neBlock l = true)
+    (hs : l[i]? = some s) (hk : s.kind = .each n b) : b ≠ [] ∧ neBlock b = true :=
+  neStmt_each s n b hk (neBlock_getElem _ _ _ h hs)
 
-theorem goodBlock_cond (l : List Stmt) (i : Nat) (s : Stmt) (w : Bool) (b : List Stmt) (h : goodBlock l = true)
-    (hs : l[i]? = some s) (hk : s.kind = .cond w b) : b ≠ [] ∧ goodBlock b = true := by
-  simp only [goodBlock, Bool.and_eq_true, decide_eq_true_eq] at h ⊢
-  obtain ⟨h1, h2⟩ := neStmt_cond s w b hk (neBlock_getElem _ _ _ h.1 hs)
-  have := depthB_getElem l i s hs
-  have := depthS_cond s w b hk
-  exact ⟨h1, h2, by omega⟩
+theorem neBlock_cond (l : List Stmt) (i : Nat) (s : Stmt) (w : Bool) (b : List Stmt) (h : neBlock l = true)
+    (hs : l[i]? = some s) (hk : s.kind = .cond w b) : b ≠ [] ∧ neBlock b = true :=
+  neStmt_cond s w b hk (neBlock_getElem _ _ _ h hs)
 
 theorem parentOK_pos (c : ExecCtx) (h : ParentOK c) : c.pos < c.block.length := by
   unfold ParentOK at h
@@ -661,8 +637,8 @@ theorem parentOK_pos (c : ExecCtx) (h : ParentOK c) : c.pos < c.block.length := 
 /-- the pieces of `StackOK` for a stack `e :: rest` -/
 theorem stackOK_cons (R : Bool) (e : ExecCtx) (rest : List ExecCtx) :
     StackOK R (e :: rest) ↔
-      (CtxOK R e ∧ goodBlock e.block = true ∧ e.pos < e.block.length) ∧
-      (∀ c ∈ rest, CtxOK R c ∧ goodBlock c.block = true) ∧ (∀ c ∈ rest, ParentOK c) := by
+      (CtxOK R e ∧ neBlock e.block = true ∧ e.pos < e.block.length) ∧
+      (∀ c ∈ rest, CtxOK R c ∧ neBlock c.block = true) ∧ (∀ c ∈ rest, ParentOK c) := by
   unfold StackOK
   constructor
   · rintro ⟨h1, h2, h3⟩
@@ -677,9 +653,9 @@ theorem stackOK_cons (R : Bool) (e : ExecCtx) (rest : List ExecCtx) :
 
 /-- the stack after `advance` left a statement with clear flags -/
 theorem stackOK_advance (R : Bool) (a : Action) (e : ExecCtx) (rest : List ExecCtx) (h : a.exec = e :: rest)
-    (hcopy : e.plugCopy = none ∨ e.plugCopy = some (e.plugs.getD [])) (hne : goodBlock e.block = true)
+    (hcopy : e.plugCopy = none ∨ e.plugCopy = some (e.plugs.getD [])) (hne : neBlock e.block = true)
     (hi : e.plugItr = none) (hp : e.processing = false)
-    (hrest : ∀ c ∈ rest, CtxOK R c ∧ goodBlock c.block = true) (hpar : ∀ c ∈ rest, ParentOK c) :
+    (hrest : ∀ c ∈ rest, CtxOK R c ∧ neBlock c.block = true) (hpar : ∀ c ∈ rest, ParentOK c) :
     StackOK R (advance a).exec := by
   rw [advance_exec a e rest h]
   by_cases hlt : e.pos + 1 < e.block.length
@@ -694,8 +670,8 @@ theorem stackOK_advance (R : Bool) (a : Action) (e : ExecCtx) (rest : List ExecC
       exact ⟨⟨(hrest p (by simp)).1, (hrest p (by simp)).2, parentOK_pos p (hpar p (by simp))⟩,
         fun c hc => hrest c (by simp [hc]), fun c hc => hpar c (by simp [hc])⟩
 
-theorem bodyCtx_ok (R : Bool) (body : List Stmt) (pl : Option (List Plug)) (hb : body ≠ []) (hne : goodBlock body = true) :
-    CtxOK R (bodyCtx body pl) ∧ goodBlock (bodyCtx body pl).block = true ∧ (bodyCtx body pl).pos < (bodyCtx body pl).block.length := by
+theorem bodyCtx_ok (R : Bool) (body : List Stmt) (pl : Option (List Plug)) (hb : body ≠ []) (hne : neBlock body = true) :
+    CtxOK R (bodyCtx body pl) ∧ neBlock (bodyCtx body pl).block = true ∧ (bodyCtx body pl).pos < (bodyCtx body pl).block.length := by
   refine ⟨ctxOK_clean R _ (Or.inl rfl) rfl rfl, hne, ?_⟩
   simp only [bodyCtx]
   exact List.length_pos_iff.mpr hb
@@ -777,7 +753,7 @@ theorem sim_each (R : Bool) (dp : List Plug) (now : Time) (d : Dev) (a : Action)
   have hfc := foreachCtx_copy R a e hR hcopy hsome
   have hdrop : a.exec.drop 1 = rest := by simp [hex]
   have hspec := nextPlug_spec n (foreachList d a e) (e.plugItr.getD 0) ((foreachList d a e).length + 1) (by omega)
-  have hbody := goodBlock_each _ _ s n b hne hcur hk
+  have hbody := neBlock_each _ _ s n b hne hcur hk
   cases hnp : nextPlug n (foreachList d a e) (e.plugItr.getD 0) ((foreachList d a e).length + 1) with
   | some pk =>
     obtain ⟨p, k⟩ := pk
@@ -871,7 +847,7 @@ theorem sim_cond (R : Bool) (dp : List Plug) (now : Time) (d : Dev) (a : Action)
   have hps := processStmt_cond d a o now e rest hex s hcur w b hk
   have hfr := stmtIf_frame d a o e b w
   have hdrop : a.exec.drop 1 = rest := by simp [hex]
-  have hbody := goodBlock_cond _ _ s w b hne hcur hk
+  have hbody := neBlock_cond _ _ s w b hne hcur hk
   by_cases hp : e.processing = true
   · -- back from the body
     have hact := stmtIf_return d a o e b w hp
@@ -1683,7 +1659,7 @@ theorem refines_run (R : Bool) (dp : List Plug) (now : Time) : ∀ (n : Nat) (d 
 /-- a fresh action (one context at the first statement of a non-empty script whose blocks are non-empty, no flags) is
     well-formed and denotes the unrolling of its whole script -/
 theorem initial_ok (R : Bool) (dp : List Plug) (script : List Stmt) (plugs : Option (List Plug))
-    (hne : script ≠ []) (hnb : goodBlock script = true) :
+    (hne : script ≠ []) (hnb : neBlock script = true) :
     StackOK R [bodyCtx script plugs] ∧ abs R dp [bodyCtx script plugs] = ⟨unroll R dp script plugs, false⟩ := by
   constructor
   · rw [stackOK_cons]
